@@ -82,12 +82,13 @@ func InitConfig(native *native.NativeService) ([]byte, error) {
 	}
 	contract := utils.NodeManagerContractAddress
 
-	// check if initConfig is already execute
-	peerPoolMapBytes, err := native.GetCacheDB().Get(utils.ConcatKey(contract, []byte(PEER_POOL)))
+	// check if initConfig is already execute: the governance view record is written by initConfig and never deleted
+	// (the peer pool is stored per view, under PEER_POOL ++ view, so the bare PEER_POOL key never exists)
+	governanceViewBytes, err := native.GetCacheDB().Get(utils.ConcatKey(contract, []byte(GOVERNANCE_VIEW)))
 	if err != nil {
-		return utils.BYTE_FALSE, fmt.Errorf("initConfig, get peerPoolMap error: %v", err)
+		return utils.BYTE_FALSE, fmt.Errorf("initConfig, get governanceView error: %v", err)
 	}
-	if peerPoolMapBytes != nil {
+	if governanceViewBytes != nil {
 		return utils.BYTE_FALSE, fmt.Errorf("initConfig. initConfig is already executed")
 	}
 
